@@ -181,6 +181,26 @@ def othersUntouched (before after : State) (target : CId) : Bool :=
       x.pend == b.pend && x.acks == b.acks && x.ka == b.ka && x.byaddr == b.byaddr && x.prune == b.prune &&
       x.infr == b.infr && x.qinfr == b.qinfr && x.genesis == b.genesis && x.commission == b.commission))
 
+/-- C13: an operation addressed to one consumer does not move any other consumer in the spawn,
+    removal or infraction schedules -/
+def schedulesUntouched (before after : State) (target : CId) : Bool :=
+  after.consumers.all fun x =>
+    x.id == target ||
+    (countIn after.spawnQ x.id == countIn before.spawnQ x.id &&
+     countIn after.removeQ x.id == countIn before.removeQ x.id &&
+     countIn after.infrQ x.id == countIn before.infrQ x.id)
+
+/-- C06 / C13: key pruning at EndBlock forgets, for every consumer, exactly the keys listed in ITS
+    OWN prune entries whose time has come — no other consumer's, none early, none left behind -/
+def pruneExact (before after : State) : Bool :=
+  after.consumers.all fun x =>
+    let b := before.get x.id
+    b.client.isNone || x.phase == .deleted ||
+    (let due := b.prune.filter fun e => decide (e.1 ≤ before.now)
+     let dueKeys := due.flatMap (·.2)
+     x.prune == b.prune.filter (fun e => decide (before.now < e.1)) &&
+     x.byaddr == b.byaddr.filter fun p => !dueKeys.contains p.1)
+
 /-! ### C05 (key assignment) -/
 
 /-- I1: an assigned key resolves back to its validator; I2: a resolvable key is either the current
